@@ -1,5 +1,5 @@
 import importlib
-MODULES = ['leaf_checks', 'lang', 'enforce', 'loader']
+MODULES = ['leaf_checks', 'lang', 'enforce', 'loader', 'tools']
 
 
 def load_all():
